@@ -12,8 +12,10 @@ ASSUMPTIONS = [
     "all ONS amounts that reach a handler are in the base currency OLT (Validate refuses the rest; generated and checked)",
     "a failed handler or fee step leaves no trace (session discarded: C06); the fee (gas used x price) and the charged address "
     "are inputs of the model, gas metering is not modelled; for a failed transaction the model is given the upper bound gas limit x price",
-    "governance ONS options: perBlockFees > 0 (a zero value makes big.Int.Div panic); option changes between transactions are "
-    "covered by the theorems (options are a per-transaction input) but the generated histories fix them per history",
+    "governance ONS options: perBlockFees > 0 (ValidateONS enforces >= 1). The options are an input of every model step: the "
+    "harness records the options PERSISTED in the deliver state's governance store before every transaction; generated and "
+    "directed histories change them through real config-update proposals (create, fund, vote, internal finalisation) and send "
+    "PROPOSAL_FINALIZE / PROPOSAL_CREATE to the mempool only (CheckTx) at call boundaries in between",
     "names are modelled as label lists; splitting at '.' is a bijection, labels contain no dot; URI scheme validity (net/url) is an input flag",
     "genesis-loaded domains are outside the generated histories (registries start empty)",
 ]
@@ -119,13 +121,14 @@ def run(ctx):
     cov = ctx.coverage
     cov.update({
         "evaluations": rep["txs"], "distinct_nontrivial": rep["distinct"],
-        "rule": "corpus/C20.json (replay of the fixed finding C20.expiry_blocks_ge_2p63 with expected refusals) + 10 directed histories (uncommitted sub-name vs purchase; look-alike names n/xn/nx/nn/an with sub-names; block count "
+        "rule": "corpus/C20.json (replay of the fixed finding C20.expiry_blocks_ge_2p63 with expected refusals) + 11 directed histories (uncommitted sub-name vs purchase; look-alike names n/xn/nx/nn/an with sub-names; block count "
                 ">= 2^63 refused; expiry and re-purchase; listing -> expiry -> expired-name purchase -> stranger offers the old price, with "
                 "its neighbours: listing cancelled before expiry, renewed and bought live once; inputs only Validate rejects; two parents with 3+1 and 2 committed sub-names renewed, then sends to every sub-name past the old expiry height) + seeded random histories over 6 accounts (5 funded, 1 poor), 12 names that are "
-                "prefixes/suffixes of each other and sub-/sub-sub-names, 5 invalid names, 5 option sets; the generator looks at the "
+                "prefixes/suffixes of each other and sub-/sub-sub-names, 5 invalid names, 5 option sets, in ~40% of the histories a governance thread changing perBlockFees / baseDomainPrice (mempool-only finalize, ONS transactions before / in the same block as / after the real finalisation); the generator looks at the "
                 "observed registry so that ~70% of signers are the current owner and offers straddle the asking/base price; "
                 "distinct = distinct (operation, outcome, registry size)",
         "traces_validated_against_impl": rep["cases"], "histories": rep["cases"], "blocks": rep["blocks"],
+        "option_changes_observed": rep["option_changes"], "auxiliary_governance_txs_and_checktx": rep["aux_txs"],
         "kind_histogram": rep["kinds"], "outcome_histogram": rep["outcomes"], "max_registry_size": rep["max_registry"],
         "txs_ok": st[1], "txs_changing_a_record": st[2],
         "model_mismatches": len(mm), "monitor_hits": len(mv),
@@ -137,6 +140,8 @@ def run(ctx):
                        "observed states (independent of the model step)",
     })
     judge(ctx, cases, mm, mv)
+    if rep["option_changes"] < 2 and ctx.violations == 0:
+        raise Broken("the governance flow of the C20 histories no longer changes the ONS prices (generator broke)", json.dumps(rep["outcomes"]))
     if broken is not None and ctx.violations == 0:
         raise broken
 
@@ -151,7 +156,11 @@ def replay(ctx, rp):
     rep, cases, mm, mv, st = evaluate(ctx, vh, ["-n", "0", "-replay", tmp, "-chunk", "1"])
     print("model_mismatches (case, step)", mm, "monitor hits (case, step, class)", mv)
     for s in cases[0]["steps"]:
-        if not s.get("end"):
+        if s.get("opts"):
+            print("  -- persisted ONS options now: perBlockFees", s["opts"][0], "baseDomainPrice", s["opts"][1])
+        elif s.get("aux"):
+            print("  (aux)", json.dumps(s["op"])[:110], "ok" if s.get("ok") else "FAIL " + s.get("log", "")[:60])
+        elif not s.get("end"):
             print(" ", json.dumps(s["op"]), "h", s.get("h"), "ok" if s.get("ok") else "FAIL " + s.get("log", "")[:70])
         else:
             print("  -- block end; registry:", [(d["name"], "owner", d["owner"], "exp", d["expiry"]) for d in s["obs"]["reg"]])
